@@ -114,7 +114,7 @@ CFG = {
              "non-trivial = the call returned an InterruptedError; distinct = by hash of the case"),
     "theorem_names": ["interrupt_prompt", "interrupt_prompt_every_level", "interrupt_prompt_total", "interrupt_prompt_sync",
                       "interrupt_runs_no_handler", "idle_interrupt_next_call", "idle_interrupt_cleared", "no_race_flag",
-                      "interrupt_clean_refuted (F16, F20: the general interrupt_clean is NOT proved; checked by correspondence)"],
+                      "interrupt_clean (guard: fixed = true or no generator/async resumption)", "interrupt_clean_refuted (F16)"],
     "allowed_axioms": [],
     "trusted_base": [
         "Coq 8.16.1 kernel + vm_compute; all theorems closed under the global context (no axioms)",
@@ -128,8 +128,8 @@ CFG = {
         "promptness is counted in abstract instructions of the model and, on the implementation, as log/probe events after "
         "the Interrupt (no per-VM-instruction counter hook was added); never wall time",
         "sequentially consistent traces + Go sync/atomic and sync.Mutex synchronisation edges for the interleaving model",
-        "interrupt_clean (idle state restored for every program) is proved only for the interrupt-while-idle case; for "
-        "running programs it is checked against the specification model by correspondence and refuted for F16/F20",
+        "interrupt_clean is proved for every program outside generator/async resumptions (and for all programs of the "
+        "specification); inside that region it is refuted on the tree (F16) and compared with the as-is model",
     ],
     "predicates": {
         "C15.interrupt_inside_generator_or_async_resumption": p_gen_async,
@@ -140,9 +140,9 @@ CFG = {
                  "instruction, at most one instruction in the whole call tree starts with the flag set (none for same-goroutine "
                  "interrupts), an uncatchable payload reaches no catch/finally for every try stack, an idle interrupt aborts the "
                  "next call at its first instruction and leaves the runtime idle, and every interleaving of Interrupt calls with "
-                 "run-loop polls is race-free on interruptVal by lock order. Missing: the general idle-state-restored theorem "
-                 "(refuted on the tree for generator/async resumptions F16; otherwise only "
-                 "checked by correspondence), and Go-level data-race freedom beyond the protocol (race detector on executed "
+                 "run-loop polls is race-free on interruptVal by lock order. interrupt_clean (stacks idle, jobs dropped, flag cleared after every call) is "
+                 "proved for every program outside generator/async resumptions; inside it is refuted on the tree (F16). "
+                 "Missing: Go-level data-race freedom beyond the protocol (race detector on executed "
                  "schedules only). Tie: 1500/100000 generated cases with an interrupt at every probe position compare error, "
                  "token, full event log, VerifIdle and a follow-up run with the model; 200/5000 asynchronous interrupts under -race."),
         "note": ("trusted: Coq kernel + vm_compute; the hand-written model coq/C15/Model.v; harness renderers; VerifIdle hook; "
